@@ -1808,6 +1808,8 @@ chunkqueue_read_squash (chunkqueue * const restrict cq, log_error_st * const res
         chunk_release(c);
         return NULL;
     }
+    if (data != c->mem->ptr) /*(chunkqueue_peek_data() returned a reference)*/
+        memcpy(c->mem->ptr, data, dlen);
     buffer_truncate(c->mem, dlen);
 
     chunkqueue_release_chunks(cq);
